@@ -2628,7 +2628,335 @@ theorem whereTbl_wf (r : Result) (tb : Tbl) (j : Option Nat) (vals : List Int) (
             obtain ⟨row, hrow, he⟩ := hall.2.2 p (List.mem_filter.mp hp).1
             exact ⟨row, List.mem_filter.mpr ⟨hrow, (mem_contains_map _ _ _).mpr ⟨p, hp, he.symm⟩⟩, he⟩
 
-/-- along any chain of `where_fin` and `where` calls the (repaired) code follows the specification -/
+/-! ### `where_best` -/
+
+
+/-! `where_best` -/
+
+abbrev Cand := Key × Rat × List Triple
+
+theorem bestLevelS_mem (cands : List Cand) (c : Cand) (h : bestLevelS cands = some c) :
+    c ∈ cands ∧ ∀ c' ∈ cands, c'.2.1 ≤ c.2.1 := by
+  unfold bestLevelS at h
+  have := List.mem_of_getLast? h
+  rw [List.mem_filter] at this
+  refine ⟨this.1, ?_⟩
+  have h2 := this.2
+  simp only [isMaxScore, List.all_eq_true, decide_eq_true_eq] at h2
+  exact h2
+
+theorem bestLevelS_snoc (pre : List Cand) (cur c : Cand) (h : bestLevelS pre = some cur) :
+    bestLevelS (pre ++ [c]) = if c.2.1 < cur.2.1 then some cur else some c := by
+  obtain ⟨hmem, hmax⟩ := bestLevelS_mem pre cur h
+  unfold bestLevelS at h ⊢
+  rw [List.filter_append]
+  by_cases hlt : c.2.1 < cur.2.1
+  · rw [if_pos hlt]
+    have h1 : List.filter (isMaxScore (pre ++ [c])) [c] = [] := by
+      rw [List.filter_eq_nil_iff]
+      intro x hx
+      simp only [List.mem_singleton] at hx
+      subst hx
+      simp only [isMaxScore, List.all_eq_true, decide_eq_true_eq, not_forall]
+      exact ⟨cur, by simp [hmem], not_le.mpr hlt⟩
+    have h2 : List.filter (isMaxScore (pre ++ [c])) pre = List.filter (isMaxScore pre) pre := by
+      apply List.filter_congr
+      intro x hx
+      simp only [isMaxScore, List.all_append, List.all_cons, List.all_nil, Bool.and_true]
+      by_cases hm : (pre.all fun c' => decide (c'.2.1 ≤ x.2.1)) = true
+      · have hx2 : cur.2.1 ≤ x.2.1 := by
+          simp only [List.all_eq_true, decide_eq_true_eq] at hm
+          exact hm cur hmem
+        have : c.2.1 ≤ x.2.1 := le_of_lt (lt_of_lt_of_le hlt hx2)
+        simp [hm, this]
+      · simp [hm]
+    rw [h1, h2, List.append_nil]
+    exact h
+  · rw [if_neg hlt]
+    have hle : cur.2.1 ≤ c.2.1 := not_lt.mp hlt
+    have h1 : List.filter (isMaxScore (pre ++ [c])) [c] = [c] := by
+      rw [List.filter_eq_self]
+      intro x hx
+      simp only [List.mem_singleton] at hx
+      subst hx
+      simp only [isMaxScore, List.all_eq_true, decide_eq_true_eq, List.mem_append, List.mem_singleton]
+      rintro c' (hc' | rfl)
+      · exact (hmax c' hc').trans hle
+      · exact le_refl _
+    rw [h1, List.getLast?_append]
+    simp
+
+theorem pickBest_fst (rest : List Cand) : ∀ (pre : List Cand) (cur : Cand) (d : List Triple),
+    bestLevelS pre = some cur →
+    (pickBest rest (some cur.2.1) cur.2.2 d).1 = ((bestLevelS (pre ++ rest)).map (·.2.2)).getD [] := by
+  induction rest with
+  | nil =>
+    intro pre cur d h
+    simp [pickBest, h]
+  | cons c rest ih =>
+    intro pre cur d h
+    have hs := bestLevelS_snoc pre cur c h
+    have happ : pre ++ c :: rest = (pre ++ [c]) ++ rest := by simp
+    simp only [pickBest]
+    by_cases hlt : c.2.1 < cur.2.1
+    · rw [if_pos (by simpa using hlt), happ]
+      rw [if_pos hlt] at hs
+      exact ih (pre ++ [c]) cur _ hs
+    · rw [if_neg (by simpa using hlt), happ]
+      rw [if_neg hlt] at hs
+      exact ih (pre ++ [c]) c _ hs
+
+/-- the loop of `filter_best` keeps the evaluations of the level with the best mean (the last one among equals) -/
+theorem pickBest_eq_spec (cands : List Cand) :
+    (pickBest cands none [] []).1 = ((bestLevelS cands).map (·.2.2)).getD [] := by
+  cases cands with
+  | nil => simp [pickBest, bestLevelS]
+  | cons c rest =>
+    simp only [pickBest]
+    have h1 : bestLevelS [c] = some c := by
+      simp [bestLevelS, isMaxScore]
+    have := pickBest_fst rest [c] c ([] ++ []) h1
+    simpa using this
+
+
+theorem mkBest_spec (r : Result) (lc pc fc : List Col) (n : Option Nat) : ∀ (gs : List (Triple × List IRow)) (es : List BEnt),
+    mkBest r lc pc fc n gs = .ok es → es.map (·.t) = gs.map (·.1) := by
+  intro gs
+  induction gs with
+  | nil => intro es h; simp only [mkBest] at h; cases h; rfl
+  | cons g gs ih =>
+    intro es h
+    simp only [mkBest] at h
+    cases h1 : lookup r.envs g.1.1 with
+    | error x => simp [h1] at h
+    | ok e =>
+      cases h2 : lookup r.lrns g.1.2.1 with
+      | error x => simp [h1, h2] at h
+      | ok l =>
+        cases h3 : lookup r.evals g.1.2.2 with
+        | error x => simp [h1, h2, h3] at h
+        | ok v =>
+          simp only [h1, h2, h3] at h
+          cases h4 : keyOf e l v g.1 pc with
+          | error x => simp [h4] at h
+          | ok pk =>
+            cases h5 : keyOf e l v g.1 lc with
+            | error x => simp [h4, h5] at h
+            | ok lk =>
+              cases h6 : keyOf e l v g.1 fc with
+              | error x => simp [h4, h5, h6] at h
+              | ok fk =>
+                simp only [h4, h5, h6] at h
+                split at h
+                · simp at h
+                · cases h7 : mkBest r lc pc fc n gs with
+                  | error x => simp [h7] at h
+                  | ok rest =>
+                    simp only [h7, Except.ok.injEq] at h
+                    subst h
+                    simp [ih rest h7]
+
+theorem levelScores_mem (cell : List BEnt) (c : Cand) (h : c ∈ levelScores cell) :
+    c.2.2 = (cell.filter (fun e => e.f = c.1)).map (·.t) := by
+  simp only [levelScores, List.mem_map] at h
+  obtain ⟨f, _, rfl⟩ := h
+  rfl
+
+/-- an evaluation survives the loop iff its `full_l` level is the best level of its cell -/
+theorem kept_iff (es : List BEnt) (hnd : (es.map (·.t)).Nodup) (e : BEnt) (he : e ∈ es) :
+    (pickBest (levelScores (cellOfEnt es e)) none [] []).1.contains e.t =
+      decide ((bestLevelS (levelScores (cellOfEnt es e))).map (·.1) = some e.f) := by
+  have hinj : ∀ a ∈ es, ∀ b ∈ es, a.t = b.t → a = b := List.inj_on_of_nodup_map hnd
+  have hecell : e ∈ cellOfEnt es e := by simp [cellOfEnt, he]
+  rw [pickBest_eq_spec]
+  cases hb : bestLevelS (levelScores (cellOfEnt es e)) with
+  | none => simp
+  | some c =>
+    have hc := (bestLevelS_mem _ c hb).1
+    have hids := levelScores_mem _ c hc
+    simp only [Option.map_some, Option.getD_some, Option.some.injEq]
+    rw [hids, List.contains_eq_mem]
+    congr 1
+    apply propext
+    constructor
+    · intro hm
+      obtain ⟨e', he', het⟩ := List.mem_map.mp hm
+      rw [List.mem_filter] at he'
+      have he'es : e' ∈ es := (List.mem_filter.mp he'.1).1
+      have := hinj e' he'es e he het
+      subst this
+      have := he'.2
+      simp only [decide_eq_true_eq] at this
+      exact this.symm
+    · intro hf
+      exact List.mem_map.mpr ⟨e, List.mem_filter.mpr ⟨hecell, by simpa using hf.symm⟩, rfl⟩
+
+theorem keptByBest_eq (es : List BEnt) (hnd : (es.map (·.t)).Nodup) : keptByBest es = keptByBestS es := by
+  unfold keptByBest keptByBestS
+  congr 1
+  apply List.filter_congr
+  intro e he
+  rw [kept_iff es hnd e he]
+
+theorem droppedByBest_eq (es : List BEnt) (hnd : (es.map (·.t)).Nodup) :
+    droppedByBest es = (es.filter (fun e => !decide ((bestLevelS (levelScores (cellOfEnt es e))).map (·.1) = some e.f))).map (·.t) := by
+  unfold droppedByBest
+  congr 1
+  apply List.filter_congr
+  intro e he
+  rw [kept_iff es hnd e he]
+
+/-- `where_best` is its specification on well-formed Results -/
+theorem filterBest_eq_spec (r : Result) (lc pc : List Col) (n : Option Nat) (fl fp : List Col) (hwf : WF r) :
+    filterBest r lc pc n fl fp = whereBestS r lc pc n fl fp := by
+  unfold filterBest whereBestS
+  rw [filterFin_eq_spec r none (some (fl, fp)) hwf.1 hwf.2.1 hwf.2.2.1 hwf.2.2.2 (by intro h; cases h)]
+  cases hfin : whereFinS r none (some (fl, fp)) with
+  | error x => rfl
+  | ok fin =>
+    simp only
+    obtain ⟨⟨hs, hu, hw, hrefs⟩, hall⟩ := whereFinS_wf r fin none (some (fl, fp)) hwf hfin
+    cases hes : mkBest fin lc pc fl n (runs fin.ints) with
+    | error x => rfl
+    | ok es =>
+      simp only
+      have hmap := mkBest_spec fin lc pc fl n _ es hes
+      have hnd : (es.map (·.t)).Nodup := by rw [hmap]; exact runs_nodup _ hs
+      have hinj : ∀ a ∈ es, ∀ b ∈ es, a.t = b.t → a = b := List.inj_on_of_nodup_map hnd
+      have hrowes : ∀ row ∈ fin.ints, ∃ e ∈ es, e.t = row.triple := by
+        intro row hrow
+        have := row_triple_mem_runs _ row hrow
+        rw [← hmap] at this
+        obtain ⟨e, he, het⟩ := List.mem_map.mp this
+        exact ⟨e, he, het⟩
+      have hpres : ∀ e ∈ es, ∃ row ∈ fin.ints, row.triple = e.t := by
+        intro e he
+        have : e.t ∈ (runs fin.ints).map (·.1) := by rw [← hmap]; exact List.mem_map.mpr ⟨e, he, rfl⟩
+        obtain ⟨g, hg, hgt⟩ := List.mem_map.mp this
+        obtain ⟨row, hrow, hrt⟩ := mem_runs_triple _ g hg
+        exact ⟨row, hrow, by rw [hrt, hgt]⟩
+      have hrm := removeRows_eq fin.ints (droppedByBest es) 0 hs
+        (by rw [droppedByBest_eq es hnd]; exact (List.filter_sublist.map _).nodup hnd)
+        (by
+          intro t ht
+          rw [droppedByBest_eq es hnd] at ht
+          obtain ⟨e, he, rfl⟩ := List.mem_map.mp ht
+          obtain ⟨row, hrow, hrt⟩ := hpres e (List.mem_filter.mp he).1
+          exact List.mem_map.mpr ⟨row, hrow, hrt⟩) (Or.inl rfl)
+      rw [hrm]
+      simp only
+      have hfilt : fin.ints.filter (fun row => !(droppedByBest es).contains row.triple) =
+          fin.ints.filter (fun row => (keptByBestS es).contains row.triple) := by
+        apply List.filter_congr
+        intro row hrow
+        obtain ⟨e, he, het⟩ := hrowes row hrow
+        rw [← het, droppedByBest_eq es hnd]
+        unfold keptByBestS
+        by_cases hb : (bestLevelS (levelScores (cellOfEnt es e))).map (·.1) = some e.f
+        · have h1 : e.t ∈ (es.filter (fun e => decide ((bestLevelS (levelScores (cellOfEnt es e))).map (·.1) = some e.f))).map (·.t) :=
+            List.mem_map.mpr ⟨e, List.mem_filter.mpr ⟨he, by simpa using hb⟩, rfl⟩
+          have h2 : e.t ∉ (es.filter (fun e => !decide ((bestLevelS (levelScores (cellOfEnt es e))).map (·.1) = some e.f))).map (·.t) := by
+            intro hc
+            obtain ⟨e', he', het'⟩ := List.mem_map.mp hc
+            rw [List.mem_filter] at he'
+            have := hinj e' he'.1 e he het'
+            subst this
+            simp [hb] at he'
+          simp [List.contains_eq_mem, h1, h2]
+        · have h1 : e.t ∉ (es.filter (fun e => decide ((bestLevelS (levelScores (cellOfEnt es e))).map (·.1) = some e.f))).map (·.t) := by
+            intro hc
+            obtain ⟨e', he', het'⟩ := List.mem_map.mp hc
+            rw [List.mem_filter] at he'
+            have := hinj e' he'.1 e he het'
+            subst this
+            simp [hb] at he'
+          have h2 : e.t ∈ (es.filter (fun e => !decide ((bestLevelS (levelScores (cellOfEnt es e))).map (·.1) = some e.f))).map (·.t) :=
+            List.mem_map.mpr ⟨e, List.mem_filter.mpr ⟨he, by simpa using hb⟩, rfl⟩
+          simp [List.contains_eq_mem, h1, h2]
+      rw [hfilt, keptByBest_eq es hnd]
+      have hT : ∀ t, t ∈ keptByBestS es ↔ ∃ row ∈ fin.ints.filter (fun row => (keptByBestS es).contains row.triple), row.triple = t := by
+        intro t
+        constructor
+        · intro ht
+          have ht' := ht
+          unfold keptByBestS at ht'
+          obtain ⟨e, he, rfl⟩ := List.mem_map.mp ht'
+          obtain ⟨row, hrow, hrt⟩ := hpres e (List.mem_filter.mp he).1
+          exact ⟨row, List.mem_filter.mpr ⟨hrow, by rw [hrt]; simpa using ht⟩, hrt⟩
+        · rintro ⟨row, hrow, rfl⟩
+          simpa using (List.mem_filter.mp hrow).2
+      have hsubT : ∀ t ∈ keptByBestS es, ∃ row ∈ fin.ints, row.triple = t := by
+        intro t ht
+        unfold keptByBestS at ht
+        obtain ⟨e, he, rfl⟩ := List.mem_map.mp ht
+        exact hpres e (List.mem_filter.mp he).1
+      rw [filterTable_kept fin.envs hu.1 _ (·.1) _ (fun t ht => by
+            obtain ⟨row, hrow, rfl⟩ := hsubT t ht
+            obtain ⟨p, hp, hpid⟩ := (hrefs row hrow).1; exact ⟨p, hp, hpid⟩) hT,
+        filterTable_kept fin.lrns hu.2.1 _ (·.2.1) _ (fun t ht => by
+            obtain ⟨row, hrow, rfl⟩ := hsubT t ht
+            obtain ⟨p, hp, hpid⟩ := (hrefs row hrow).2.1; exact ⟨p, hp, hpid⟩) hT,
+        filterTable_kept fin.evals hu.2.2 _ (·.2.2) _ (fun t ht => by
+            obtain ⟨row, hrow, rfl⟩ := hsubT t ht
+            obtain ⟨p, hp, hpid⟩ := (hrefs row hrow).2.2; exact ⟨p, hp, hpid⟩) hT]
+      rfl
+
+/-- what `where_best` must return is again well-formed and fully referenced -/
+theorem whereBestS_wf (r r' : Result) (lc pc : List Col) (n : Option Nat) (fl fp : List Col) (hwf : WF r)
+    (h : whereBestS r lc pc n fl fp = .ok r') : WF r' ∧ AllReferenced r' := by
+  unfold whereBestS at h
+  cases hfin : whereFinS r none (some (fl, fp)) with
+  | error x => rw [hfin] at h; simp at h
+  | ok fin =>
+    rw [hfin] at h
+    simp only at h
+    obtain ⟨⟨hs, hu, hw, hrefs⟩, _⟩ := whereFinS_wf r fin none (some (fl, fp)) hwf hfin
+    cases hes : mkBest fin lc pc fl n (runs fin.ints) with
+    | error x => rw [hes] at h; simp at h
+    | ok es =>
+      rw [hes] at h
+      simp only [Except.ok.injEq] at h
+      subst h
+      exact ⟨⟨hs.filter _, restrict_uniqueIds fin _ hu,
+        idxWF_filter (fun t => (keptByBestS es).contains t) fin.ints hs hw,
+        restrict_refsPresent fin _ (fun row hrow => (List.mem_filter.mp hrow).1) hrefs⟩, restrict_allReferenced fin _⟩
+
+/-- the level `where_best` keeps in a cell has the best mean of the cell -/
+theorem bestLevelS_is_max (cands : List Cand) (c : Cand) (h : bestLevelS cands = some c) :
+    c ∈ cands ∧ ∀ c' ∈ cands, c'.2.1 ≤ c.2.1 := bestLevelS_mem cands c h
+
+theorem bestLevelS_some (cands : List Cand) (h : cands ≠ []) : ∃ c, bestLevelS cands = some c := by
+  -- a maximal element exists
+  have : ∃ c ∈ cands, isMaxScore cands c = true := by
+    induction cands with
+    | nil => exact absurd rfl h
+    | cons a as ih =>
+      by_cases has : as = []
+      · subst has; exact ⟨a, by simp, by simp [isMaxScore]⟩
+      · obtain ⟨m, hm, hmax⟩ := ih has
+        simp only [isMaxScore, List.all_eq_true, decide_eq_true_eq] at hmax
+        by_cases hlt : m.2.1 ≤ a.2.1
+        · refine ⟨a, by simp, ?_⟩
+          simp only [isMaxScore, List.all_eq_true, decide_eq_true_eq, List.mem_cons]
+          rintro c' (rfl | hc')
+          · exact le_refl _
+          · exact (hmax c' hc').trans hlt
+        · refine ⟨m, by simp [hm], ?_⟩
+          simp only [isMaxScore, List.all_eq_true, decide_eq_true_eq, List.mem_cons]
+          rintro c' (rfl | hc')
+          · exact le_of_lt (not_le.mp hlt)
+          · exact hmax c' hc'
+  obtain ⟨c, hc, hmax⟩ := this
+  unfold bestLevelS
+  have hne : cands.filter (isMaxScore cands) ≠ [] := by
+    intro hc2
+    have : c ∈ cands.filter (isMaxScore cands) := List.mem_filter.mpr ⟨hc, hmax⟩
+    rw [hc2] at this
+    simp at this
+  exact ⟨_, List.getLast?_eq_getLast hne⟩
+
+
+/-- along any chain of `where_fin`, `where` and `where_best` calls the (repaired) code follows the specification -/
 theorem runChain_eq_spec (ss : List Step) : ∀ (r : Result), WF r → AllReferenced r →
     runChain true ss r = runChainS ss r := by
   induction ss with
@@ -2649,6 +2977,145 @@ theorem runChain_eq_spec (ss : List Step) : ∀ (r : Result), WF r → AllRefere
       simp only [runChain, runChainS]
       obtain ⟨h1, h2⟩ := whereTbl_wf r tb j vals hwf hall
       exact ih _ h1 h2
+    | best lc pc n fl fp =>
+      simp only [runChain, runChainS]
+      rw [filterBest_eq_spec r lc pc n fl fp hwf]
+      cases h : whereBestS r lc pc n fl fp with
+      | error e => rfl
+      | ok r' =>
+        simp only
+        obtain ⟨h1, h2⟩ := whereBestS_wf r r' lc pc n fl fp hwf h
+        exact ih r' h1 h2
+
+
+
+/-! ## Part 7: the length step before the pairing step (C18-F3) -/
+
+
+/-- the repaired order of `_filter_fin` meets the documented (joint) contract -/
+theorem filterFinD_eq_spec (r : Result) (n : Option NSpec) (lp : Option (List Col × List Col))
+    (hwf : WF r) (hall : AllReferenced r) : filterFinD r n lp = whereFinJ r n lp := by
+  have base : filterFin true r n lp = whereFinS r n lp :=
+    filterFin_eq_spec r n lp hwf.1 hwf.2.1 hwf.2.2.1 hwf.2.2.2 (fun _ => hall)
+  unfold filterFinD whereFinJ
+  match n with
+  | none => exact base
+  | some .min => exact base
+  | some (.k 0) => exact base
+  | some (.k (m + 1)) =>
+    simp only
+    have h1 : globalN r (.k (m + 1)) = whereFinS r (some (.k (m + 1))) none := by
+      have := filterFin_eq_spec r (some (.k (m + 1))) none hwf.1 hwf.2.1 hwf.2.2.1 hwf.2.2.2 (fun _ => hall)
+      simpa [filterFin] using this
+    rw [h1]
+    cases h : whereFinS r (some (.k (m + 1))) none with
+    | error x => rfl
+    | ok r1 =>
+      simp only
+      obtain ⟨hwf1, hall1⟩ := whereFinS_wf r r1 _ none hwf h
+      have := filterFin_eq_spec r1 none lp hwf1.1 hwf1.2.1 hwf1.2.2.1 hwf1.2.2.2 (fun _ => hall1)
+      cases lp with
+      | none => simpa [filterFin] using this
+      | some lp =>
+        obtain ⟨lc, pc⟩ := lp
+        simp only [filterFin] at this
+        cases hg : groupP true r1 lc pc with
+        | error x => rw [hg] at this; simp only at this ⊢; rw [hg]; exact this
+        | ok r2 => rw [hg] at this; simp only at this ⊢; rw [hg]; exact this
+
+
+/-! ## Part 8: `raw_contrast` -/
+
+
+/-! `raw_contrast` -/
+
+theorem sideVals_eq (r : Result) (sel : List (Tbl × Option Nat × Int)) (pc : List Col) (x : XSpec) (span : Option Nat) :
+    sideVals allEntries r sel pc x span = sideVals allEntriesS r sel pc x span := by
+  unfold sideVals
+  rw [allEntries_eq (applySel r sel) pc x span _ (fun g hg => (runs_spec _ g hg).1)]
+
+/-- `raw_contrast` pairs up exactly the directly computed averages -/
+theorem rawContrast_eq_spec (r : Result) (sel1 sel2 : List (Tbl × Option Nat × Int)) (pc : List Col) (x : XSpec)
+    (span : Option Nat) : rawContrast r sel1 sel2 pc x span = rawContrastS r sel1 sel2 pc x span := by
+  unfold rawContrast rawContrastS rawContrastWith
+  rw [sideVals_eq, sideVals_eq]
+
+theorem insertS_not_mem (D : List ((Key × Key) × Rat)) (k : Key × Key) (v : Rat) (h : k ∉ D.map (·.1)) :
+    insertS D k v = D ++ [(k, v)] := by
+  induction D with
+  | nil => rfl
+  | cons a as ih =>
+    obtain ⟨k', v'⟩ := a
+    simp only [List.map_cons, List.mem_cons, not_or] at h
+    simp only [insertS]
+    rw [if_neg (fun hc => h.1 hc.symm), ih h.2]
+    rfl
+
+theorem lastWins_nodup (es : List ((Key × Key) × Rat)) : ∀ (D : List ((Key × Key) × Rat)),
+    ((D ++ es).map (·.1)).Nodup → lastWins D es = D ++ es := by
+  induction es with
+  | nil => intro D _; simp [lastWins]
+  | cons e es ih =>
+    intro D h
+    obtain ⟨k, v⟩ := e
+    simp only [lastWins]
+    have hk : k ∉ D.map (·.1) := by
+      simp only [List.map_append, List.map_cons] at h
+      have := (List.nodup_append.mp h).2.2
+      intro hc
+      exact this k hc k (by simp) rfl
+    rw [insertS_not_mem D k v hk, ih (D ++ [(k, v)]) (by simpa using h)]
+    simp
+
+
+/-! ## Part 9: dyadic inputs -/
+
+
+/-! dyadic inputs: every sum the implementation forms is a bounded integer multiple of `2^-k` -/
+
+/-- `q = m / 2^k` for an integer `m` with `|m| ≤ bound` -/
+def DyadicBdd (k : Nat) (bound : Nat) (q : Rat) : Prop := ∃ m : Int, q = (m : Rat) / 2 ^ k ∧ m.natAbs ≤ bound
+
+theorem DyadicBdd.zero (k : Nat) : DyadicBdd k 0 0 := ⟨0, by simp, by simp⟩
+
+theorem DyadicBdd.add {k a b : Nat} {x y : Rat} (hx : DyadicBdd k a x) (hy : DyadicBdd k b y) :
+    DyadicBdd k (a + b) (x + y) := by
+  obtain ⟨m, rfl, hm⟩ := hx
+  obtain ⟨n, rfl, hn⟩ := hy
+  refine ⟨m + n, by push_cast; ring, ?_⟩
+  have := Int.natAbs_add_le m n
+  omega
+
+theorem sumL_dyadic (k B : Nat) (l : List Rat) (h : ∀ x ∈ l, DyadicBdd k B x) : DyadicBdd k (l.length * B) (sumL l) := by
+  induction l with
+  | nil => simpa [sumL] using DyadicBdd.zero k
+  | cons x xs ih =>
+    have h1 := h x (by simp)
+    have h2 := ih (fun y hy => h y (by simp [hy]))
+    have := h1.add h2
+    simp only [sumL, List.length_cons]
+    have e : B + xs.length * B = (xs.length + 1) * B := by ring
+    rw [e] at this
+    exact this
+
+theorem mem_window (span : Option Nat) (i : Nat) (xs : List Rat) : ∀ x ∈ window span i xs, x ∈ xs := by
+  intro x hx
+  cases span with
+  | none => exact List.mem_of_mem_take hx
+  | some s => exact List.mem_of_mem_take (List.mem_of_mem_drop hx)
+
+theorem length_window_le (span : Option Nat) (i : Nat) (xs : List Rat) : (window span i xs).length ≤ xs.length := by
+  cases span with
+  | none => simp [window]
+  | some s => simp [window]
+
+/-- every window sum (= every partial sum the accumulate/tee implementation of `moving_average` forms, by
+`sumL_take_subShift`) of values `m/2^k`, `|m| ≤ B`, is again `m'/2^k` with `|m'| ≤ len·B` -/
+theorem window_sum_dyadic' (k B : Nat) (vs : List Rat) (h : ∀ x ∈ vs, DyadicBdd k B x) (span : Option Nat) (i : Nat) :
+    DyadicBdd k (vs.length * B) (sumL (window span i vs)) := by
+  obtain ⟨m, hm, hb⟩ := sumL_dyadic k B (window span i vs) (fun x hx => h x (mem_window span i vs x hx))
+  refine ⟨m, hm, hb.trans ?_⟩
+  exact Nat.mul_le_mul_right B (length_window_le span i vs)
 
 
 /-! ## primed statements referenced by `Props/C18.lean` -/
